@@ -176,11 +176,12 @@ def enumerate_scenario(ctx, idx, o, sdir):
     P = physics.derive({k: v for k, v in run.items()})
     exe_env = {}
 
-    def go(name, extra_opts, env):
+    def go(name, extra_opts, env, fresh_xdg=False):
         wd = os.path.join(gd, name)
         os.makedirs(wd, exist_ok=True)
         oo = dict(run); oo.update(extra_opts); oo["output"] = "out.h5"
-        return wd, prog.run_inovesa("rel", oo, wd, xdg, timeout=300, env=env, inherit_sigint_ignored=bool(o.get("_sigint_ignored")))
+        # fresh_xdg: a data directory of its own, i.e. no stored FFT wisdom (the first run with this grid on a machine)
+        return wd, prog.run_inovesa("rel", oo, wd, os.path.join(wd, "xdg") if fresh_xdg else xdg, timeout=300, env=env, inherit_sigint_ignored=bool(o.get("_sigint_ignored")))
 
     go("warm", dict(outstep=0, rotations=0.01), {})
     # reference with every step recorded, and the dry pass that lists the points
@@ -206,11 +207,16 @@ def enumerate_scenario(ctx, idx, o, sdir):
         c, tag, st, _ = pts[ks[0] - 1]
         jobs.append((tuple(ks), tag, st))
     jobs = list(dict((j[0], j) for j in jobs).values())
+    # every set-up point once more without stored FFT wisdom (the plans are then made, patiently, during set-up - a long stretch in
+    # which the first Ctrl+C of an impatient user arrives); scenario 0 only, its transforms are small
+    if idx == 0:
+        jobs += [((c,), tag, st, "nowisdom") for c, tag, st, _ in pts if tag.startswith("setup")]
 
     def one(job):
-        ks, tag, st = job
-        name = "k" + "_".join(map(str, ks))
-        wd, res = go(name, {}, {"INOVESA_VERIF_SIGINT_AT": ",".join(map(str, ks)), "INOVESA_VERIF_POINTLOG": "points.log"})
+        ks, tag, st = job[:3]
+        fresh = len(job) > 3
+        name = "k" + "_".join(map(str, ks)) + ("_nowisdom" if fresh else "")
+        wd, res = go(name, {}, {"INOVESA_VERIF_SIGINT_AT": ",".join(map(str, ks)), "INOVESA_VERIF_POINTLOG": "points.log"}, fresh_xdg=fresh)
         outp = dict(job=job, res=res, wd=wd)
         try:
             outp["pts"] = read_points(os.path.join(wd, "points.log"))
@@ -219,12 +225,15 @@ def enumerate_scenario(ctx, idx, o, sdir):
         return outp
 
     for outp in core.pmap(one, jobs):
-        ks, tag, st = outp["job"]
+        ks, tag, st = outp["job"][:3]
+        nowis = len(outp["job"]) > 3
         res = outp["res"]
         w = dict(scenario=idx, options=run, points=list(ks), tag=tag, step_at_signal=st, cmd=" ".join(res["argv"]),
-                 env="INOVESA_VERIF_SIGINT_AT=%s" % ",".join(map(str, ks)))
-        sfx = ":" + tag.split(":")[0]
-        ctx.case("s%d:%s" % (idx, ks))
+                 env="INOVESA_VERIF_SIGINT_AT=%s" % ",".join(map(str, ks)), stored_fft_wisdom=not nowis)
+        sfx = ":" + tag.split(":")[0] + (":no_wisdom" if nowis else "")
+        ctx.case("s%d:%s%s" % (idx, ks, ":nowisdom" if nowis else ""))
+        if nowis:
+            ctx.ev("setup_interrupts_without_stored_wisdom")
         inj = [p for p in outp["pts"] if p[3]]
         if not inj or inj[0][0] != ks[0] or inj[0][1] != tag:
             ctx.inconcl("scenario %d point %s: injection did not fire where intended (%s)" % (idx, ks, inj[:1]))
@@ -244,7 +253,8 @@ def enumerate_scenario(ctx, idx, o, sdir):
         except (IOError, OSError) as ex:
             ctx.violation("C14:unreadable" + sfx, "results file of the interrupted run cannot be read", dict(w, error=str(ex)))
             continue
-        n = judge(ctx, h, P, run, ref, refsame, res, expected_step(tag, st), w, sfx, finished_ok=tag.startswith(("final", "loopend")))
+        # (without stored wisdom FFTW may choose other plans: nothing is compared bit for bit across wisdom, the file oracle applies in full)
+        n = judge(ctx, h, P, run, None if nowis else ref, None if nowis else refsame, res, expected_step(tag, st), w, sfx, finished_ok=tag.startswith(("final", "loopend")))
         ctx.ev("records_compared_bitwise", n)
         if not os.environ.get("VERIF_KEEP"):
             shutil.rmtree(outp["wd"], ignore_errors=True)
@@ -438,6 +448,6 @@ def run(ctx):
     tags = ctx.extra.pop("point_tags_seen", set())
     ctx.extra["point_tags_seen"] = sorted(tags)
     ctx.extra["explanation"] = "every interrupt point of the chosen runs was injected once (complete for those runs); the set of runs is a sample"
-    ctx.min_events = {"signal_bursts_inside_hdf5_writes": 8, "injections_confirmed": 300, "injected.setup": 20, "injected.loop": 100, "injected.out": 20,
+    ctx.min_events = {"setup_interrupts_without_stored_wisdom": 10, "signal_bursts_inside_hdf5_writes": 8, "injections_confirmed": 300, "injected.setup": 20, "injected.loop": 100, "injected.out": 20,
                       "injected.final": 5, "injected.loopend": 5, "records_compared_bitwise": 3000, "async_runs_judged": 10,
                       "injections_inside_hdf5_writes_confirmed": 100}
